@@ -29,7 +29,8 @@ PROP = {
     "rule": ("each case = ONE call issued in a random reachable state of a real ExocoreApp (state evolved by the successful calls of the same "
              "stream: LST/NST deposits and withdrawals, delegations, undelegations, associations, token/client-chain registrations, slashes, "
              "blocks): assets/delegation precompile Run with gateway or foreign caller (valid, malformed and unsatisfiable arguments: amount = "
-             "withdrawable/+1/-1/0/2^200, unknown chain/asset/operator, bad bech32, short/empty addresses, missing tx hash, decimals > 18, bad "
+             "withdrawable/+1/-1/0/2^200, unknown chain/asset/operator, bad bech32, short/empty addresses, missing tx hash, a repeated gateway message - "
+             "every second accepted undelegation is repeated in the same block with the same LayerZero nonce, tx hash and operator -, decimals > 18, bad "
              "oracle info), Keeper.Slash (duplicate id, proportion nil/negative/>1, power <= 0, future height, wrong slash contract), operator "
              "messages inside a runTx-style cache, or delegation EndBlock over 2-4 matured records with a fault injected into one of them; "
              "directed scenarios reproducing each refuted model statement come first; distinct = distinct sha1 of the whole case; every case "
